@@ -85,6 +85,9 @@ class Run:
         if fact is True:
             return
         if fact is False:
+            if __import__('os').environ.get('PYVC_TRACE'):
+                import traceback
+                traceback.print_stack(limit=12)
             raise PathEnd('infeasible')
         fact = z3.simplify(fact) if not isinstance(fact, bool) else fact
         if z3.is_true(fact):
